@@ -40,6 +40,17 @@ def make (spec0):
         spec = gen.curve_spec (rng) or spec
     gen.add_sources (rng, spec, nmax = 4)
     gen.taper_some (np.random.default_rng ([spec0 ['seed'], 71, spec0 ['i']]), spec, 0.15)
+    rl = np.random.default_rng ([spec0 ['seed'], 72, spec0 ['i']])
+    if rl.random () < 0.3:
+        # a lumped load of some kind in series with a source (on its pulse): the source data stay V / I of that pulse
+        sr = spec ['src'][int (rl.integers (0, len (spec ['src'])))]
+        if 'at' in sr:
+            kind = str (rl.choice (['z', 'rlc', 'trap', 'lap']))
+            ld = dict (z = dict (k = 'z', z = [float (10 ** rl.uniform (0, 2.5)), float (rl.uniform (-200, 200))])
+                      , rlc = dict (k = 'rlc', R = float (10 ** rl.uniform (0, 2)), L = float (10 ** rl.uniform (-7, -5.5)), C = float (10 ** rl.uniform (-11, -9.5)))
+                      , trap = dict (k = 'trap', R = float (10 ** rl.uniform (-1, 1)), L = float (10 ** rl.uniform (-7, -5.5)), C = float (10 ** rl.uniform (-12, -10)))
+                      , lap = dict (k = 'lap', a = [1.0, float (10 ** rl.uniform (-9, -7))], b = [float (10 ** rl.uniform (0, 2)), float (10 ** rl.uniform (-7, -5))])) [kind]
+            spec ['loads'] = [dict (ld, at = sr ['at'])]
     mag = 10 ** rng.uniform (-6, 6) if rng.random () < 0.5 else rng.uniform (0.5, 2)
     ph  = rng.choice ([0, np.pi / 2, np.pi, rng.uniform (-np.pi, np.pi)])
     spec ['factor'] = [float (mag * np.cos (ph)), float (mag * np.sin (ph))]
